@@ -72,24 +72,26 @@ type op struct {
 type input struct {
 	Stream string `json:"stream"` // hist | rank
 	// rank stream
-	P int `json:"p,omitempty"`
-	N int `json:"n,omitempty"`
+	P  int     `json:"p,omitempty"`
+	PF float64 `json:"pf,omitempty"` // non-integer threshold (used instead of P when not 0)
+	N  int     `json:"n,omitempty"`
 	// hist stream
-	Pcts      []int    `json:"pcts,omitempty"`
-	Mask      []bool   `json:"mask,omitempty"` // 15 TimerSubtypes bits in declaration order
-	Limit     uint32   `json:"limit,omitempty"`
-	Expiry    bool     `json:"expiry,omitempty"` // timers expire after 1h (old datapoints), else never
-	Batch     int      `json:"batch,omitempty"`
-	InfluxV   int      `json:"influx_v,omitempty"`
-	NRType    string   `json:"nr_type,omitempty"`
-	OTLPHist  bool     `json:"otlp_hist,omitempty"`
-	OTLPKeys  []string `json:"otlp_keys,omitempty"`
-	Graphite  string   `json:"graphite,omitempty"`
-	StatsdTCP bool     `json:"statsd_tcp,omitempty"`
-	Special   int      `json:"special,omitempty"` // 0 finite values, 1 with +-Inf, 2 with NaN
-	Series    []series `json:"series,omitempty"`
-	Ops       []op     `json:"ops,omitempty"`
-	Class     string   `json:"class,omitempty"`
+	Pcts      []int     `json:"pcts,omitempty"`
+	FPcts     []float64 `json:"fpcts,omitempty"` // non-integer thresholds: monitors only, no model term
+	Mask      []bool    `json:"mask,omitempty"`  // 15 TimerSubtypes bits in declaration order
+	Limit     uint32    `json:"limit,omitempty"`
+	Expiry    bool      `json:"expiry,omitempty"` // timers expire after 1h (old datapoints), else never
+	Batch     int       `json:"batch,omitempty"`
+	InfluxV   int       `json:"influx_v,omitempty"`
+	NRType    string    `json:"nr_type,omitempty"`
+	OTLPHist  bool      `json:"otlp_hist,omitempty"`
+	OTLPKeys  []string  `json:"otlp_keys,omitempty"`
+	Graphite  string    `json:"graphite,omitempty"`
+	StatsdTCP bool      `json:"statsd_tcp,omitempty"`
+	Special   int       `json:"special,omitempty"` // 0 finite values, 1 with +-Inf, 2 with NaN
+	Series    []series  `json:"series,omitempty"`
+	Ops       []op      `json:"ops,omitempty"`
+	Class     string    `json:"class,omitempty"`
 }
 
 func maskOf(b []bool) gostatsd.TimerSubtypes {
@@ -108,6 +110,7 @@ var maskKeys = []string{"lower", "lower-pct", "upper", "upper-pct", "count", "co
 // generators
 
 var pctPool = []int{0, 1, -1, 50, -50, 90, -90, 99, -99, 100, -100, 95, 75, 25, 10, -10, -100, -90}
+var fpctPool = []float64{99.9, 99.99, 0.1, 50.5, -99.5, 33.333, -0.5, 1e-9, 99.99999999999999, -100, 100, 12.5, -66.6, 0.999}
 var limits = []uint32{0, 1, 2, 5, math.MaxUint32}
 var batches = []int{1, 2, 3, 20, 1000}
 var goodItems = []string{"0.5", "10", "-3", "1e2", "inf", "-inf", "nan", "+Inf", "0", "-0", "20", "2.5", "100", "1", "5", "NaN", "1_0"}
@@ -176,6 +179,11 @@ func genHist(r *hlib.Rand) input {
 		}
 		if r.Bool() {
 			in.Pcts = nil
+		}
+	}
+	if r.Chance(1, 8) { // thresholds that are not integers: the aggregator model has integer thresholds, so monitors only
+		for k := r.Range(1, 4); k > 0; k-- {
+			in.FPcts = append(in.FPcts, hlib.Pick(r, fpctPool))
 		}
 	}
 	in.Limit = hlib.Pick(r, limits)
@@ -249,6 +257,9 @@ func genHist(r *hlib.Rand) input {
 	}
 	in.Ops = append(in.Ops, op{Kind: "flush"}, op{Kind: "reset"}, op{Kind: "flush"}) // an idle flush at the end
 	in.Class = "hist"
+	if len(in.FPcts) > 0 {
+		in.Class = "hist-fpct"
+	}
 	if in.Limit == 0 {
 		in.Class += "/limit0"
 	}
@@ -274,6 +285,13 @@ func genRank(r *hlib.Rand) input {
 		in.N = r.Range(3001, 40000)
 	default:
 		in.N = r.Range(40001, 400000)
+	}
+	if r.Chance(1, 4) {
+		in.P, in.PF, in.Class = 0, hlib.Pick(r, fpctPool), "rank/float"
+		if r.Bool() {
+			in.PF = math.Round((r.Float()*200-100)*1000) / 1000
+		}
+		return in
 	}
 	if r.Chance(1, 3) && in.P != 0 {
 		// a rounding boundary: |p| * n = 50 (mod 100), i.e. |p|/100*n = k + 1/2 in the reals
@@ -495,6 +513,14 @@ func runHist(x *infra, em *hlib.Emitter, in input) {
 	for i, p := range in.Pcts {
 		pcts[i] = float64(p)
 	}
+	if len(in.FPcts) > 0 {
+		pcts = nil
+		for _, p := range in.FPcts {
+			if p >= -100 && p <= 100 {
+				pcts = append(pcts, p)
+			}
+		}
+	}
 	var expT time.Duration
 	if in.Expiry {
 		expT = time.Hour
@@ -713,7 +739,9 @@ func runHist(x *infra, em *hlib.Emitter, in input) {
 		nrt = "NRInfra"
 	}
 	cfg := hlib.App("HC", hlib.List(pz), pmask, bmask, hlib.ZU(uint64(in.Limit)), nrt, hlib.Bool(in.OTLPHist), hlib.StrList(in.OTLPKeys), hlib.Z(int64(in.Batch)))
-	c.Coq = hlib.App("CHist", cfg, hlib.List(sd), hlib.List(table), hlib.List(opTerms))
+	if len(in.FPcts) == 0 {
+		c.Coq = hlib.App("CHist", cfg, hlib.List(sd), hlib.List(table), hlib.List(opTerms))
+	}
 	c.Obs = obsLog
 	c.Nontrivial = flushes >= 2 && idle > 0 && maxN >= 2 && len(in.Pcts) > 0
 	em.Emit(c)
@@ -721,12 +749,16 @@ func runHist(x *infra, em *hlib.Emitter, in input) {
 
 func runRank(em *hlib.Emitter, in input) {
 	c := hlib.Case{Input: in, Class: in.Class}
-	if in.N < 2 || in.N > 2000000 || in.P < -100 || in.P > 100 {
+	pct := float64(in.P)
+	if in.PF != 0 {
+		pct = in.PF
+	}
+	if in.N < 2 || in.N > 2000000 || !(pct >= -100 && pct <= 100) {
 		c.Class = "degenerate"
 		em.Emit(c)
 		return
 	}
-	agg := statsd.NewMetricAggregator([]float64{float64(in.P)}, 0, 0, 0, 0, gostatsd.TimerSubtypes{}, 0)
+	agg := statsd.NewMetricAggregator([]float64{pct}, 0, 0, 0, 0, gostatsd.TimerSubtypes{}, 0)
 	vs := make([]float64, in.N)
 	for i := range vs {
 		vs[i] = float64((i * 7919) % 1009)
@@ -740,7 +772,7 @@ func runRank(em *hlib.Emitter, in input) {
 		agg.Flush(time.Second)
 		agg.Process(func(m *gostatsd.MetricMap) {
 			for _, p := range m.Timers["t"][""].Percentiles {
-				if p.Str == "count_"+strconv.Itoa(in.P) {
+				if p.Str == "count_"+strconv.Itoa(int(pct)) {
 					obs, found = p.Float, true
 				}
 			}
@@ -751,9 +783,13 @@ func runRank(em *hlib.Emitter, in input) {
 		em.Emit(c)
 		return
 	}
-	c.Coq = hlib.App("CRank", hlib.Z(int64(in.P)), hlib.Z(int64(in.N)), hlib.Option(hlib.Z(int64(obs)), found))
+	if in.PF != 0 {
+		c.Coq = hlib.App("CRankF", hlib.F64(pct), hlib.Z(int64(in.N)), hlib.Option(hlib.Z(int64(obs)), found))
+	} else {
+		c.Coq = hlib.App("CRank", hlib.Z(int64(in.P)), hlib.Z(int64(in.N)), hlib.Option(hlib.Z(int64(obs)), found))
+	}
 	c.Obs = map[string]interface{}{"count": obs, "reported": found}
-	c.Nontrivial = in.P != 0
+	c.Nontrivial = pct != 0
 	em.Emit(c)
 }
 
